@@ -247,6 +247,9 @@ func (h *H) genProtoTag(ft *Ty, used map[int]bool, pos int) string {
 	wire := "varint"
 	b := baseOf(ft)
 	rep := "opt"
+	if h.Intn(4) == 0 {
+		rep = "req" // proto2 required: encoded like optional
+	}
 	if ft.K == "sl" && !isByteSeq(ft) {
 		rep = "rep"
 		b = baseOf(ft.Elem)
